@@ -1,16 +1,19 @@
 (* C17 — the unacknowledged-stanza queue is a FIFO with increasing sequence numbers.
-   Only statements, closed by [exact], with their assumptions printed. *)
+   Only statements, closed by [exact], with their assumptions printed.
+   Histories range over the six calls of the property's text and over DropLast (the seventh mutator of
+   the object, which Client.Send/SendRaw call when a write is refused).  Sequence numbers are unbounded
+   integers here (Go: int, 2^63 - 1 stanzas on one session are out of reach). *)
 From Coq Require Import List ZArith NArith Bool Sorted.
 From XV Require Import Lib.Sx Model.Queue Proofs.QueueP.
 Import ListNotations.
 Open Scope Z_scope.
 
-(* Every history over push/pop/pop-n k/peek/peek-n k/empty (k any integer), started
-   on the empty queue, returns at every step what the reference FIFO returns and
-   leaves the contents the reference FIFO has. *)
+(* Every history over push/pop/pop-n k/peek/peek-n k/empty (k any integer) and DropLast, started
+   on the empty queue, returns at every step what the reference FIFO returns and leaves the
+   contents the reference FIFO has (DropLast on the reference: the newest entry is taken back). *)
 Theorem C17_refines_fifo : forall ops : list qop,
   map (fun rq => (out_abs (fst rq), q_abs (snd rq))) (q_run q_init ops) = f_run [] ops.
-Proof. intros ops. exact (run_refines ops q_init). Qed.
+Proof. intros ops. exact (run_refines ops q_init l_init init_L). Qed.
 
 (* Peeks (and Empty) never modify the queue, ids included. *)
 Theorem C17_peek_pure : forall st o, is_peek o = true -> fst (q_step st o) = st.
@@ -20,23 +23,62 @@ Proof. exact peek_pure. Qed.
    from head to tail (head = oldest, by C17_refines_fifo). *)
 Theorem C17_ids_increasing : forall ops : list qop,
   Forall (fun rq => StronglySorted Z.lt (map fst (snd rq))) (q_run q_init ops).
-Proof. intros ops. apply (run_sorted ops q_init). apply init_inv. Qed.
+Proof. exact run_sorted_init. Qed.
 
-(* Sequence numbers count the stanzas pushed on the queue object: in every reachable
-   state the next push gets lastId + 1, also after pops emptied the queue. *)
-Theorem C17_numbering_continues : forall st s, q_inv st ->
-  push_id st = snd st + 1 /\ q_inv (q_push st s).
-Proof. intros st s H. split; [apply push_id_init_inv; exact H|apply push_inv; exact H]. Qed.
+(* In every reachable state the next push is numbered lastId + 1 and becomes the tail entry, also
+   after pops emptied the queue and after an entry was taken back. *)
+Theorem C17_numbering_continues : forall ops s,
+  let st := q_exec q_init ops in
+  push_id st = snd st + 1 /\ q_push st s = (fst st ++ [(snd st + 1, s)], snd st + 1).
+Proof. exact numbering_continues. Qed.
 
-(* non-vacuity: a history that empties and refills the queue *)
+(* "In insertion order": after every history the sequence number of an entry is its position (from 1)
+   in the log of the payloads pushed and not taken back; the queue holds the part of the log that has
+   not left at the head, and lastId is the length of the log. *)
+Theorem C17_ids_are_positions : forall ops,
+  let st := q_exec q_init ops in let s := l_exec l_init ops in
+  fst st = numbered (Z.of_nat (snd s) + 1) (skipn (snd s) (fst s)) /\
+  snd st = Z.of_nat (length (fst s)) /\ (snd s <= length (fst s))%nat.
+Proof. exact ids_are_positions. Qed.
+
+(* ... and lastId = number of pushes - number of DropLast calls that took an entry back *)
+Theorem C17_ids_count : forall ops,
+  snd (q_exec q_init ops) = Z.of_nat (n_pushes ops) - Z.of_nat (n_taken_back [] ops).
+Proof. exact ids_count. Qed.
+
+(* without DropLast the log is the list of pushed payloads: ids are 1, 2, 3, ... in push order *)
+Theorem C17_log_without_drops : forall ops, Forall no_drop ops ->
+  fst (l_exec l_init ops) = pushed ops.
+Proof. intros ops H. exact (log_without_drops ops l_init H). Qed.
+
+(* DropLast right after a push (what Client.writeHeld does under the send lock) restores the queue
+   object: entries and next number *)
+Theorem C17_droplast_undoes_push : forall ops s,
+  let st := q_exec q_init ops in fst (q_step (fst (q_step st (QPush s))) QDropLast) = st.
+Proof. exact droplast_undoes_push. Qed.
+
+(* non-vacuity: a history that empties and refills the queue, takes pushes back (the number is used again),
+   and calls DropLast on an empty queue *)
 Example C17_example :
-  q_run q_init [QPush [1%N]; QPush [2%N]; QPopN 5; QPush [3%N]; QPeekN (-1); QPop; QEmpty]
+  q_run q_init [QPush [1%N]; QPush [2%N]; QPopN 5; QPush [3%N]; QPeekN (-1); QDropLast; QDropLast; QPush [4%N];
+                QPush [5%N]; QDropLast; QPop; QEmpty]
   = [(QNil, [(1, [1%N])]); (QNil, [(1, [1%N]); (2, [2%N])]);
      (QMany [(1, [1%N]); (2, [2%N])], []); (QNil, [(3, [3%N])]);
-     (QNil, [(3, [3%N])]); (QOne (3, [3%N]), []); (QBool true, [])].
+     (QNil, [(3, [3%N])]); (QNil, []); (QNil, []); (QNil, [(3, [4%N])]);
+     (QNil, [(3, [4%N]); (4, [5%N])]); (QNil, [(3, [4%N])]); (QOne (3, [4%N]), []); (QBool true, [])].
 Proof. reflexivity. Qed.
+
+Example C17_example_count :
+  let ops := [QPush [1%N]; QDropLast; QDropLast; QPush [2%N]; QPush [3%N]; QPop; QDropLast; QDropLast] in
+  n_pushes ops = 3%nat /\ n_taken_back [] ops = 2%nat /\ q_exec q_init ops = ([], 1) /\
+  l_exec l_init ops = ([[2%N]], 1%nat).
+Proof. repeat split. Qed.
 
 Print Assumptions C17_refines_fifo.
 Print Assumptions C17_peek_pure.
 Print Assumptions C17_ids_increasing.
 Print Assumptions C17_numbering_continues.
+Print Assumptions C17_ids_are_positions.
+Print Assumptions C17_ids_count.
+Print Assumptions C17_log_without_drops.
+Print Assumptions C17_droplast_undoes_push.
